@@ -784,7 +784,7 @@ fn gen_comment_text(ch: &mut Choices, hostile: bool) -> String {
             .to_string();
     }
     // edge whitespace is part of a comment
-    ch.pick(&["c0", "c1", "c2", "by appointment", "a, b", "Z", "x", "c0", "c1", " lead", "trail ", " "]).to_string()
+    ch.pick(&["c0", "c1", "c2", "by appointment", "a, b", "Z", "x", "c0", "c1", " lead", "trail ", " ", "é ü", "日本", "c0", "c2"]).to_string()
 }
 
 fn gen_rule(ch: &mut Choices, cfg: &Cfg, out: &mut String, operator: RuleOperator) -> GenRule {
